@@ -1,6 +1,7 @@
 package props
 
 import (
+	"context"
 	"errors"
 	"fmt"
 	"github.com/jig/lisp/lisperror"
@@ -22,6 +23,8 @@ func installGoBuiltins(e types.EnvType) {
 	call.CallOverrideFN(e, "pan!", func() (types.MalType, error) { panic(ErrPan) })
 	call.CallOverrideFN(e, "sentinel", func() (types.MalType, error) { return ErrBoom, nil })
 	call.CallOverrideFN(e, "pans!", func() (types.MalType, error) { panic("pans") })
+	// a Go function registered as a bare types.Func (no binder, hence no recover around it) that panics
+	e.Set(types.Symbol{Val: "rawpan!"}, types.Func{Fn: func(ctx context.Context, a []types.MalType) (types.MalType, error) { panic(ErrPan) }})
 	// a Go builtin returning its own error that wraps the sentinel and a lisp error (what a builtin
 	// does when a lisp callback it ran threw and it passes the failure on)
 	call.CallOverrideFN(e, "boomw!", func() (types.MalType, error) {
